@@ -2275,7 +2275,7 @@ def merge_const_segments(segs):
     out = []
     for s in segs:
         b = None
-        if isinstance(s, tuple) and len(s) == 2 and s[0] == "const" and isinstance(s[1], (bytes, bytearray)):
+        if isinstance(s, tuple) and len(s) == 2 and s[0] in ("const", "bytes") and isinstance(s[1], (bytes, bytearray)):
             b = bytes(s[1])
         elif isinstance(s, tuple) and len(s) == 2 and s[0] == "array" and s[1] and all(isinstance(e, tuple) and len(e) == 2 and e[0] == "const" and isinstance(e[1], int) and 0 <= e[1] < 256 for e in s[1]):
             b = bytes(e[1] for e in s[1])
@@ -2338,6 +2338,36 @@ def byte_segments(t):
             return byte_segments(prev) + [("array", (args[0],))]
         if is_(t[1], "Extend::extend", "Vec::extend_from_slice", "Vec::extend", "Vec::append") and len(args) == 1:
             return byte_segments(prev) + byte_segments(args[0])
+    if isinstance(t, tuple) and len(t) == 2 and t[0] == "phi" and len(t[1]) == 2:
+        # the buffer after `for part in [a, b, c] { buffer.extend_from_slice(&part) }`: a loop over an array literal that
+        # appends each element as it comes is the elements appended in order
+        cyc = lambda x: term_contains(x, lambda y: isinstance(y, tuple) and len(y) == 2 and y[0] == "cyclic")
+        loop = [x for x in t[1] if isinstance(x, tuple) and len(x) == 4 and x[0] == "upd" and isinstance(x[1], str) and is_(x[1], "Extend::extend", "Vec::extend_from_slice", "Vec::extend", "Vec::push") and len(x[3]) == 1 and cyc(x)]
+        base = [x for x in t[1] if not cyc(x)]
+        if len(loop) == 1 and len(base) == 1:
+            elem = loop[0][3][0]
+            while isinstance(elem, tuple) and len(elem) == 4 and elem[0] == "call" and elem[2] and is_(elem[1], "Deref::deref", "AsRef::as_ref", "Vec::as_slice", "Clone::clone"):
+                elem = elem[2][0]
+            nxt = elem[1] if isinstance(elem, tuple) and len(elem) == 2 and elem[0] == "payload" else None
+            if nxt is not None and isinstance(nxt, tuple) and len(nxt) == 4 and nxt[0] == "call" and is_(nxt[1], "Iterator::next"):
+                arrs = []
+                def find_arr(x, d=0):
+                    if isinstance(x, tuple) and len(x) == 2 and x[0] == "array":
+                        arrs.append(x)
+                        return
+                    if isinstance(x, (tuple, frozenset)) and d < 8:
+                        for y in x:
+                            if isinstance(y, (tuple, frozenset)):
+                                find_arr(y, d + 1)
+                find_arr(nxt[2][0])
+                # the loop body's own previous value must be the loop-carried buffer itself (nothing else is appended)
+                inner = loop[0][2]
+                plain = inner == ("cyclic", inner[1]) if isinstance(inner, tuple) and len(inner) == 2 and inner[0] == "cyclic" else (isinstance(inner, tuple) and len(inner) == 2 and inner[0] == "phi" and any(y == base[0] for y in inner[1]))
+                if len(arrs) == 1 and plain:
+                    out = byte_segments(base[0])
+                    for e in arrs[0][1]:
+                        out += [("array", (e,))] if is_(loop[0][1], "Vec::push") else byte_segments(e)
+                    return out
     if isinstance(t, tuple) and t and t[0] == "gamma" and len(t[2]) == 2:
         # the buffer after `if test { buffer.extend(x) }`: common prefix and suffix, the difference is conditional
         (l1, v1), (l2, v2) = t[2]
